@@ -42,7 +42,7 @@ def tool_cases(draw, name, tier):
     case = draw(base_case(name, max_len=3 if tier == "quick" else 5, max_src=3))
     if name != "iter_sentinel":
         for s in case["srcs"]:
-            s["fl"] = draw(st.sampled_from(["agen", "aclass", "aplain"]))
+            s["fl"] = draw(st.sampled_from(["agen", "aclass", "aplain", "aclass", "aclass_noclose"]))
             s["susp"] = draw(st.integers(1, 2))
     else:
         case["srcs"][0]["fl"] = "async"
@@ -51,7 +51,7 @@ def tool_cases(draw, name, tier):
         case["params"]["outer"]["fl"] = draw(st.sampled_from(["agen", "aclass"]))
         case["params"]["outer"]["susp"] = 1
     for spec in case["fns"].values():
-        spec["fl"] = draw(st.sampled_from(["async", "obj"]))
+        spec["fl"] = draw(st.sampled_from(["async", "obj", "objaw"]))
         spec["susp"] = 1
     case["mode"] = draw(st.sampled_from(["hooks", "bare"]))
     return case
